@@ -2,7 +2,8 @@
    The data-set bytes are opaque here (pydicom's data-set codec per transfer syntax is observed by the
    check, not modelled); everything between the sender's bytes and the receiving handler is. *)
 From PND Require Import Lib.Base Model.Pdu Model.CmdSet Model.Decoder Model.Dimse Model.Services Model.Storage
-  Corr.CorrDecoder Proofs.DimseProofs Proofs.DecoderProofs2 Proofs.ServicesProofs Proofs.StoreProofs Proofs.StorageProofs.
+  Corr.CorrDecoder Proofs.DimseProofs Proofs.DecoderProofs2 Proofs.ServicesProofs Proofs.StoreProofs Proofs.StorageProofs
+  Model.Provider Model.Framing Proofs.WireProofs.
 
 (* for EVERY data set, EVERY maximum length in force (0 or >= 7) the message sent by storage_scu —
    one fragment per P-DATA-TF — is reassembled by the receiving decoder into a message with the
@@ -11,13 +12,30 @@ From PND Require Import Lib.Base Model.Pdu Model.CmdSet Model.Decoder Model.Dims
 Theorem C15_data_intact : forall env cmd data pc cf elems ue m fs,
   wf_message env cmd data pc cf elems ue -> cmd <> [] -> legal_max m ->
   dimse_encode cmd data pc m = Ok fs ->
-  snd (feed env d_init (map (fun f => [pdv_of_frag f]) fs))
+  snd (CorrDecoder.feed env d_init (map (fun f => [pdv_of_frag f]) fs))
   = Some (match file_for env data elems ue with
           | Some prefix => DMsg cf cmd (prefix ++ data) true pc
           | None => DMsg cf cmd data false pc
           end).
 Proof. exact store_data_intact. Qed.
 Print Assumptions C15_data_intact.
+
+(* the same over the wire: the bytes storage_scu's fragments occupy on the connection, cut by TCP into
+   ANY segments, are recognised by the receiving provider as exactly the P-DATA-TF PDUs sent (nothing
+   left over), each decodes to the fragment it carried, and the receiving decoder delivers the message *)
+Theorem C15_over_the_wire : forall env cmd data pc cf elems ue m fs (segs : list bytes),
+  wf_message env cmd data pc cf elems ue -> cmd <> [] -> legal_max m -> eff_max m + 2 < 4294967296 -> pc < 256 ->
+  dimse_encode cmd data pc m = Ok fs ->
+  concat segs = concat (map (fun f => encode (pdu_of_frag f)) fs) ->
+  Framing.feed [] segs = (map (fun f => encode (pdu_of_frag f)) fs, [])
+  /\ Forall (fun f => decode_as 4 (encode (pdu_of_frag f)) = Ok (pdu_of_frag f)) fs
+  /\ snd (CorrDecoder.feed env d_init (map (fun f => pdvs_of (Some (pdu_of_frag f))) fs))
+     = Some (match file_for env data elems ue with
+             | Some prefix => DMsg cf cmd (prefix ++ data) true pc
+             | None => DMsg cf cmd data false pc
+             end).
+Proof. exact store_over_the_wire. Qed.
+Print Assumptions C15_over_the_wire.
 
 (* each fragment survives the wire (C01 for P-DATA-TF) *)
 Theorem C15_fragment_on_the_wire : forall f : frag, f_ctx f < 256 -> lenN (f_payload f) + 8 < 4294967296 ->
